@@ -1,0 +1,23 @@
+//go:build verif
+
+package dicescript
+
+import "sync/atomic"
+
+// Work meter for the verification harness: counts what the operation budget is supposed to bound.
+var verifDispatches, verifRolls, verifFates int64
+
+func verifMeterDispatch() { atomic.AddInt64(&verifDispatches, 1) }
+func verifMeterRoll()     { atomic.AddInt64(&verifRolls, 1) }
+func verifMeterFate()     { atomic.AddInt64(&verifFates, 1) }
+
+// VerifMeterReset zeroes the meter; VerifMeterRead returns (instruction dispatches, Roll calls, Fate instructions).
+func VerifMeterReset() {
+	atomic.StoreInt64(&verifDispatches, 0)
+	atomic.StoreInt64(&verifRolls, 0)
+	atomic.StoreInt64(&verifFates, 0)
+}
+
+func VerifMeterRead() (int64, int64, int64) {
+	return atomic.LoadInt64(&verifDispatches), atomic.LoadInt64(&verifRolls), atomic.LoadInt64(&verifFates)
+}
